@@ -4,11 +4,12 @@
 //!   impl  vs model : Sink event stream vs Lean model (`c01.model`, the matcher enters as a table)
 //!   impl  vs spec  : lines reported as matching vs `regex::bytes::Regex::is_match(content)` per line
 //!                    (content = line minus terminator byte, and minus a preceding `\r` under CRLF)
-//!   model vs spec  : under the guards of the theorems (`C01_partial`: no bare-LF line under CRLF;
-//!                    `C01_fast_cert`: the `LineSafe` certificate check holds on the matcher's answers),
-//!                    relative to the matcher's own `is_match` on the content
-//! Known-finding classes: `crlf-bare-lf-line` (F3), `fastpath-matcher-not-linesafe-crlf` (F1),
-//! `fastpath-matcher-not-linesafe` (F2).
+//!   model vs spec  : under the guards of the theorems (`C01_content_slow`: none; `C01_content_fast`: the
+//!                    `LineSafe` certificate check holds on the matcher's answers), relative to the matcher's
+//!                    own `is_match` on the content
+//! Known-finding classes: `fastpath-matcher-not-linesafe-crlf` (F1),
+//! `fastpath-matcher-not-linesafe` (F2), `crlf-cr-unmatchable` (matcher level: a lone CR inside a line cannot be
+//! matched under --crlf).
 #[path = "../searcher_common.rs"]
 mod searcher_common;
 
@@ -68,10 +69,9 @@ fn build_reference(c: &C1) -> Result<regex::bytes::Regex, String> {
         .map(|p| if c.fixed { regex::escape(p) } else { format!("(?:{})", p) })
         .collect();
     let mut b = regex::bytes::RegexBuilder::new(&alts.join("|"));
+    // NUL-data only changes how the input is cut into records: `.`, `^`, `$` keep their `\n` meaning
+    // (grep-regex does not hand the NUL terminator to the regex syntax; see the FIXME in core.rs).
     b.multi_line(true).unicode(true).case_insensitive(c.ci).crlf(c.cfg.lt == Lt::Crlf);
-    if c.cfg.lt == Lt::Nul {
-        b.line_terminator(0);
-    }
     b.build().map_err(|e| e.to_string())
 }
 
@@ -284,8 +284,10 @@ fn run_case(line: &str, drv: &mut Driver, rep: &mut Report) {
         });
     }
     // F: impl vs the property
-    let class = if cfg.lt == Lt::Crlf && guard == "0" {
-        "crlf-bare-lf-line"
+    let cr_in_content = lines.iter().any(|l| content(l, cfg.lt).contains(&b'\r'));
+    let class = if cfg.lt == Lt::Crlf && cr_in_content && bits_m != bits_r {
+        // matcher level: under --crlf the pattern is rewritten so that it can match neither \r nor \n
+        "crlf-cr-unmatchable"
     } else if path == "fast" && safe == "0" {
         if cfg.lt == Lt::Crlf {
             "fastpath-matcher-not-linesafe-crlf"
@@ -312,12 +314,12 @@ fn run_case(line: &str, drv: &mut Driver, rep: &mut Report) {
         });
     }
     // T: model vs the matcher-relative spec, under the theorems' guards
-    let guarded = guard == "1" && (path == "slow" || (path == "fast" && safe == "1"));
+    let guarded = path == "slow" || (path == "fast" && safe == "1");
     if guarded && !is_driver_error(&model) && reported(&model) != reported(&spec_m) {
         rep.violation(Violation {
             kind: "model_vs_spec".into(),
             class: "".into(),
-            tie: "theorem C01_partial / C01_fast_cert contradicted".into(),
+            tie: "theorem C01_content_slow / C01_content_fast contradicted".into(),
             case: line.to_string(),
             detail: format!("model {} spec {}", model, spec_m),
         });
@@ -340,7 +342,7 @@ fn main() {
     }
     if args.replay.is_none() {
         let mut rng = Rng::new(args.seed);
-        let n = args.cases.unwrap_or(if args.thorough { 150000 } else { 6000 });
+        let n = args.cases.unwrap_or(if args.thorough { 100000 } else { 6000 });
         for i in 0..n {
             let c = gen_case(&mut rng).line();
             if i < 8 {
